@@ -17,10 +17,13 @@ _real = {}
 
 
 def _simpath(p):
-    """Return the normalised str path if p addresses SimFS, else None."""
+    """Return the str path if p addresses SimFS, else None.  While a run with a simulated working directory
+    is active, relative paths used by the simulated process resolve against that directory."""
     if type(p) is str:
         if p.startswith(PREFIX) and (len(p) == len(PREFIX) or p[len(PREFIX)] == "/"):
             return p
+        if _STATE.get("cwd") and not p.startswith("/") and _cwd_applies():
+            return _STATE["cwd"] + "/" + p if p not in ("", ".") else _STATE["cwd"]
         return None
     if isinstance(p, int):
         return None
@@ -32,7 +35,14 @@ def _simpath(p):
         q = os.fsdecode(q)
     if q.startswith(PREFIX) and (len(q) == len(PREFIX) or q[len(PREFIX)] == "/"):
         return q
+    if _STATE.get("cwd") and not q.startswith("/") and _cwd_applies():
+        return _STATE["cwd"] + "/" + q if q not in ("", ".") else _STATE["cwd"]
     return None
+
+
+def _cwd_applies():
+    s = _STATE["sched"]
+    return s is not None and s.current is not None
 
 
 def _isfd(x):
@@ -269,6 +279,11 @@ def _mk_wrappers():
             return bytes(rng.getrandbits(8) for _ in range(n))
         return R["urandom"](n)
 
+    def getcwd():
+        if _STATE.get("cwd") and _cwd_applies():
+            return _STATE["cwd"]
+        return R["getcwd"]()
+
     def getpid():
         if _STATE["sched"] is not None and _STATE["sched"].current is not None:
             return 4242 + _STATE.get("incarnation", 0)
@@ -283,7 +298,7 @@ def _mk_wrappers():
 
 _OS_NAMES = ["stat", "lstat", "access", "listdir", "scandir", "mkdir", "rmdir", "remove", "unlink", "rename",
              "replace", "link", "symlink", "readlink", "utime", "chmod", "truncate", "open", "close", "read",
-             "write", "fstat", "lseek", "ftruncate", "fsync", "fdatasync", "listxattr", "urandom", "getpid"]
+             "write", "fstat", "lseek", "ftruncate", "fsync", "fdatasync", "listxattr", "urandom", "getpid", "getcwd"]
 
 
 def _sim_open(file, mode="r", buffering=-1, encoding=None, errors=None, newline=None, closefd=True, opener=None):
@@ -293,7 +308,7 @@ def _sim_open(file, mode="r", buffering=-1, encoding=None, errors=None, newline=
             return fs.open(file, mode, buffering, encoding, errors, newline, closefd, opener)
         p = _simpath(file)
         if p is not None:
-            return fs.open(file, mode, buffering, encoding, errors, newline, closefd, opener)
+            return fs.open(p, mode, buffering, encoding, errors, newline, closefd, opener)
     return _real["builtins.open"](file, mode, buffering, encoding, errors, newline, closefd, opener)
 
 
@@ -464,8 +479,9 @@ def install_global():
     _STATE["installed"] = True
 
 
-def bind(fs, sched, clock, entropy_seed=0):
+def bind(fs, sched, clock, entropy_seed=0, cwd=None):
     install_global()
+    _STATE["cwd"] = cwd
     _STATE["fs"] = fs
     _STATE["sched"] = sched
     _STATE["clock"] = clock
@@ -495,6 +511,7 @@ def bind(fs, sched, clock, entropy_seed=0):
 
 
 def unbind():
+    _STATE["cwd"] = None
     _STATE["fs"] = None
     _STATE["sched"] = None
     _STATE["clock"] = None
